@@ -151,9 +151,70 @@ def cases_c11(ctx, boost):
     return out
 
 
+# =============================================================================== C18
+def str_variants(rng, s):
+    """edits of a valid spelling: case changes, single-character edits, prefixes, extensions"""
+    out = {s.upper(), s.lower(), s.swapcase(), s[:-1], s[1:], s + "a", s + "_", "x" + s, s + " ", " " + s, ""}
+    for i in range(len(s)):
+        out.add(s[:i] + s[i + 1:])
+        out.add(s[:i] + ("X" if s[i] != "X" else "Y") + s[i + 1:])
+        out.add(s[:i] + s[i].swapcase() + s[i + 1:])
+    out.discard(s)
+    return sorted(out)
+
+
+def cases_c18(ctx, boost):
+    from pymodel import ctext, head as chead
+    out = []
+    for cfg in ctx.cfgs(("000", "111")):
+        g = ctx.gen(cfg)
+        for path, key, t in g.all_refs():
+            r = g.s.res(t)
+            if r.get("leaf") == "enumStr":
+                for i, sp in enumerate(r["ser"]):
+                    out.append(Case("dec", cfg, f"dec {cfg} {key} {ctext(sp).hex()}", f"dec {cfg} {path} {ctext(sp).hex()}", tag="str valid"))
+                    out.append(Case("enc", cfg, f"enc {cfg} {key} n{i}", f"enc {cfg} {path} n{i}", tag="str enc"))
+                    for v in str_variants(g.rng, sp):
+                        out.append(Case("dec", cfg, f"dec {cfg} {key} {ctext(v).hex()}", f"dec {cfg} {path} {ctext(v).hex()}", tag="str edit"))
+                for _ in range(10 * boost):
+                    v = casegen.rand_utf8(g.rng, g.rng.randint(0, 20))
+                    out.append(Case("dec", cfg, f"dec {cfg} {key} {ctext(v).hex()}", f"dec {cfg} {path} {ctext(v).hex()}", tag="str random"))
+                # a byte string with a valid spelling is not a text string
+                out.append(Case("dec", cfg, f"dec {cfg} {key} {(chead(2, len(r['ser'][0])) + r['ser'][0].encode()).hex()}",
+                                f"dec {cfg} {path} {(chead(2, len(r['ser'][0])) + r['ser'][0].encode()).hex()}", tag="str as bytes"))
+            if r.get("leaf") == "enumRepr":
+                nums = list(range(256)) + [256, 257, 0xFFFF, 0x10000, 0xFFFFFFFF, 0x100000000, 2 ** 64 - 1] + \
+                       [0x100 + d for d in r["discs"]] + [0x10000 + d for d in r["discs"]]
+                for n in nums:
+                    hx = chead(0, n).hex()
+                    out.append(Case("dec", cfg, f"dec {cfg} {key} {hx}", f"dec {cfg} {path} {hx}", tag="num"))
+                for d in r["discs"]:   # non-minimal and negative renderings of listed numbers
+                    for hx in (bytes([0x18, d]).hex() if d < 24 else bytes([0x19, 0, d]).hex(), chead(1, d).hex()):
+                        out.append(Case("dec", cfg, f"dec {cfg} {key} {hx}", f"dec {cfg} {path} {hx}", tag="num odd"))
+                for i in range(len(r["discs"])):
+                    out.append(Case("enc", cfg, f"enc {cfg} {key} n{i}", f"enc {cfg} {path} n{i}", tag="num enc"))
+    for name in ("status", "Permissions", "AuthenticatorDataFlags"):
+        out.append(Case("tbl", "000", f"tbl {name}", tag="table"))
+    for b in range(256):
+        out.append(Case("cb", "000", f"cb {b}", tag="control byte"))
+        out.append(Case("cpp", "000", f"cpp {b}", tag="cred protect"))
+    return out
+
+
 NOT_YET = {}
 
 PROPS = {
+    "C18": {"ns": "C18", "cases": cases_c18,
+            "level_text": "Proof. Generic table theorems (G-TABLE: lookupStr_zip_range, indexOf_iff) show that a string / number "
+                          "table with pairwise distinct entries accepts exactly the listed spellings / discriminants, for every "
+                          "string and every unsigned integer below 2^64; per-run obligations (decide) show the tables regenerated "
+                          "from the source equal the specification's (7 enumeration sites × 8 configurations, status codes, "
+                          "permission and flag bits, control bytes, credential-protection bytes over all 256 values). "
+                          "Correspondence: every spelling, every single-character edit / case change / prefix / extension, all 256 "
+                          "byte values and threshold integers to 2^64-1 through the real decoder and TryFrom impls.",
+            "rule": "every enumeration reachable from a request/response root × {valid spellings, edits, random texts, all "
+                    "byte values + thresholds}; tables dumped from the built crate; distinct case lines",
+            "assumptions": ["usize = 64 bit", "dependencies behave as modelled (DESIGN.md App. A)"]},
     "C11": {"ns": "C11", "cases": cases_c11,
             "level_text": "Proof. The byte↔operation tables and the operation switch are extracted from the source on every "
                           "run; 12 kernel-checked finite obligations (decide +kernel over all 256 bytes) establish that the "
